@@ -8,7 +8,7 @@
 (* goroutines on all CPUs play one flight after the other on a fresh entry *)
 (* -- one fetcher, W waiters, a completion of the given kind fired at a    *)
 (* random moment after the waiters began to register -- and every round    *)
-(* must end: all waiters return, the completion returns, the next lookup   *)
+(* (at most 20 s of rounds per case) must end: all waiters return, the completion returns, the next lookup   *)
 (* is answered.  TLC judges the tallies.                                   *)
 (***************************************************************************)
 EXTENDS Integers, Sequences, FiniteSets, TLC, Json, IOUtils, SequencesExt
@@ -25,7 +25,7 @@ EmitInit ==
   /\ LET Q == SetToSeq(Cases) IN ndJsonSerialize(IOEnv.OUT, Q)
 EmitNext == FALSE /\ l' = l
 
-(* observation: rounds played; stuck: rounds in which somebody had not returned after 5 s;
+(* observation: rounds played; stuck: rounds in which somebody had not returned after 30 s;
    wrong: rounds in which a waiter resumed with a status the completion cannot have produced *)
 Obs == ndJsonDeserialize(IOEnv.OBS)
 
